@@ -278,7 +278,7 @@ func c11prop(r *simkit.Run) {
 		}
 		rec := simkit.NewRecorder()
 		reached = ""
-		handler.ServeHTTP(rec, req)
+		r.Guard(fmt.Sprintf("request of session %d with cookie %q (%s)", s.id, s.cookie, s.how), func() { handler.ServeHTTP(rec, req) })
 		var fresh *http.Cookie
 		for _, c := range (&http.Response{Header: rec.Snapshot}).Cookies() {
 			if c.Name == "aff" {
